@@ -312,9 +312,12 @@ class Executor:
             return True
         if z3.is_false(c):
             return False
+        if s.decided(c) is not None:
+            return s.decided(c)
         r, _ = self.solver.check(s.pc + [z3.Not(c)], timeout_ms=self.solver.feas_timeout_ms)
         if r == "unsat":
-            v.hint = "str"
+            # remembered for this path only: the value object is shared with sibling paths where it may be anything
+            s.known[c.get_id()] = True
             return True
         return False
 
@@ -1842,6 +1845,8 @@ class Executor:
         for s in states[1:]:
             if s.nref != first.nref or len(s.out) != len(first.out) or set(s.env) != set(first.env) or set(s.store) != set(first.store):
                 return outcomes
+            if any(x is not y for x, y in zip(s.out, first.out)) or s.flags.get("looped") != first.flags.get("looped"):
+                return outcomes           # the branches yielded different values: their outputs stay apart
             if not s.same_heap(first):
                 return outcomes
             ev_a, ev_b = s.ghost.get("events", []), first.ghost.get("events", [])
